@@ -20,6 +20,12 @@ type Entry struct {
 	S, D     kit.TypeInfo
 	Convert  func(src, dst kit.AnyBuf) int
 	NewBlock func() BlockFn // each returned BlockFn owns its buffers (one per goroutine)
+	// NewBlockFix is NewBlock with a fixture construction order for the source:
+	// 0: filled and converted through the same header; 1: the converted header is
+	// a Slice(0,n) taken before the samples were written through the parent;
+	// 2: the samples are written through a Slice(0,n) alias and the never-written
+	// parent header is converted.
+	NewBlockFix func(fix int) BlockFn
 	// Prepared allocates typed buffers (C channels, sFrames / dFrames long, the
 	// destination optionally a window with spare capacity) and returns a closure
 	// that only performs the conversion - for allocation measurements.
@@ -98,8 +104,9 @@ func mk[S, D signal.SignalTypes](fn, s, d string, conv func(*signal.Buffer[S], *
 	}
 	sk, dk := e.S.Kind, e.D.Kind
 	sHalf, dHalf := uint64(1)<<(e.S.Bits-1), uint64(1)<<(e.D.Bits-1)
-	e.NewBlock = func() BlockFn {
-		var src *signal.Buffer[S]
+	e.NewBlock = func() BlockFn { return e.NewBlockFix(0) }
+	e.NewBlockFix = func(fix int) BlockFn {
+		var src, csrc *signal.Buffer[S] // src: written through; csrc: converted
 		var dst *signal.Buffer[D]
 		size := -1
 		return func(inI []int64, inF []float64, outI []int64, outF []float64) {
@@ -107,9 +114,16 @@ func mk[S, D signal.SignalTypes](fn, s, d string, conv func(*signal.Buffer[S], *
 			if sk == kit.Float {
 				n = len(inF)
 			}
-			if n != size {
+			if n != size || fix != 0 {
 				a := signal.Allocator{Channels: 1, Length: n, Capacity: n}
-				src, dst, size = signal.Alloc[S](a), signal.Alloc[D](a), n
+				base := signal.Alloc[S](a)
+				src, csrc, dst, size = base, base, signal.Alloc[D](a), n
+				switch fix {
+				case 1:
+					csrc = base.Slice(0, n)
+				case 2:
+					src = base.Slice(0, n)
+				}
 			}
 			switch sk {
 			case kit.Float:
@@ -125,7 +139,7 @@ func mk[S, D signal.SignalTypes](fn, s, d string, conv func(*signal.Buffer[S], *
 					src.SetSample(i, ampToCode[S](false, sHalf, inI[i]))
 				}
 			}
-			conv(src, dst)
+			conv(csrc, dst)
 			switch dk {
 			case kit.Float:
 				for i := 0; i < n; i++ {
